@@ -105,12 +105,18 @@ pub enum Dimension {
     LengthVw,
     /// A length relative to viewport height.
     LengthVh,
-    /// A length relative to viewport size (min or max).
-    LengthVx,
+    /// A length relative to the smaller viewport dimension.
+    LengthVmin,
+    /// A length relative to the larger viewport dimension.
+    LengthVmax,
     /// A length relatvie to base font size.
     LengthRem,
     /// A length relative to font size.
     LenghtEm,
+    /// A length relative to the x-height of the font.
+    LengthEx,
+    /// A length relative to the width of the "0" glyph of the font.
+    LengthCh,
     /// An angle.
     Angle,
     /// A duration.
@@ -139,8 +145,13 @@ impl Unit {
 
             Self::Vw => Dimension::LengthVw,
             Self::Vh => Dimension::LengthVh,
-            Self::Vmin | Self::Vmax => Dimension::LengthVx,
-            Self::Ch | Self::Em | Self::Ex => Dimension::LenghtEm,
+            // No fixed ratio relates these units, so each is its own
+            // dimension.
+            Self::Vmin => Dimension::LengthVmin,
+            Self::Vmax => Dimension::LengthVmax,
+            Self::Em => Dimension::LenghtEm,
+            Self::Ex => Dimension::LengthEx,
+            Self::Ch => Dimension::LengthCh,
             Self::Rem => Dimension::LengthRem,
 
             Self::Deg | Self::Grad | Self::Rad | Self::Turn => {
@@ -165,6 +176,12 @@ impl Unit {
     pub fn scale_to(&self, other: &Self) -> Option<f64> {
         if self == other {
             Some(1.)
+        } else if matches!(
+            (self, other),
+            (Self::Percent, Self::Fr) | (Self::Fr, Self::Percent)
+        ) {
+            // Both are "dimensionless", but there is no ratio between them.
+            None
         } else if self.dimension() == other.dimension() {
             Some(self.scale_factor() / other.scale_factor())
         } else {
@@ -291,9 +308,12 @@ impl From<Dimension> for CssDimension {
             Dimension::LengthAbs
             | Dimension::LengthVw
             | Dimension::LengthVh
-            | Dimension::LengthVx
+            | Dimension::LengthVmin
+            | Dimension::LengthVmax
             | Dimension::LengthRem
-            | Dimension::LenghtEm => Self::Length,
+            | Dimension::LenghtEm
+            | Dimension::LengthEx
+            | Dimension::LengthCh => Self::Length,
             Dimension::Angle => Self::Angle,
             Dimension::Time => Self::Time,
             Dimension::Frequency => Self::Frequency,
